@@ -12,7 +12,7 @@ def run(ctx):
     cases = []
     for i in range(n):
         tr = tracks[i % len(tracks)]
-        cases.append({"kind": "lift", "instr": "none", "acts": tr["acts"], "steps": seqs[(i * 7) % len(seqs)]["steps"]})
+        cases.append({"kind": "lift", "instr": ("none", "generic", "piano", "midi")[i % 4], "acts": tr["acts"], "steps": seqs[(i * 7) % len(seqs)]["steps"]})
     ctx.behaviours = (ctx.behaviours or 0) + len(cases)
     ctx.bounds = str(ctx.bounds) + "; lifting: %d TLC-simulated tracks (notes, chords, rests, mixed values, several meters/keys) x sequences of 5 transposition/augment/diminish steps at track, bar and container level" % n
     recs = ctx.execute("c11l", cases)
